@@ -54,6 +54,7 @@ type hop struct {
 	Iter    *iterSpec `json:"iter,omitempty"`
 	Pin     bool      `json:"pin,omitempty"`   // append: ask for the entry block to be pinned
 	Fault   bool      `json:"fault,omitempty"` // append/publish: the store refuses every block write during this operation
+	Clock   int       `json:"clock,omitempty"` // new: time of the clock handed to NewLog (LogOptions.Clock); 0 = none
 	Stall   string    `json:"stall,omitempty"` // append: "ctx" = the store is stuck and the caller's 50 ms deadline fires during the block write (must fail like a refused write); "slow" = the block write takes 2.5 s (must succeed, and only return once the block is stored)
 }
 
@@ -461,7 +462,11 @@ func (h *histRun) exec() {
 				if len(denied) > 0 {
 					ac = &denyAC{denied: denied}
 				}
-				l, err := ipfslog.NewLog(w.api, w.idents[o.Ident], &ipfslog.LogOptions{ID: o.LogID, SortFn: sortFnOf(o.Sort), AccessController: ac})
+				lopts := &ipfslog.LogOptions{ID: o.LogID, SortFn: sortFnOf(o.Sort), AccessController: ac}
+				if o.Clock != 0 {
+					lopts.Clock = entry.NewLamportClock(w.idents[o.Ident].PublicKey, o.Clock)
+				}
+				l, err := ipfslog.NewLog(w.api, w.idents[o.Ident], lopts)
 				if err != nil {
 					panic(err)
 				}
@@ -1152,7 +1157,7 @@ func (h *histRun) coq() string {
 			for _, d := range o.Deny {
 				deny = append(deny, r.keys.rank(string(w.idents[d].PublicKey)))
 			}
-			op = fmt.Sprintf("ONew %s %s %s %s", coqN(r.logids[o.LogID]), coqN(r.keys.rank(string(w.idents[o.Ident].PublicKey))), sortCoq(o.Sort), coqNList(deny))
+			op = fmt.Sprintf("ONew %s %s %s %s %s", coqN(r.logids[o.LogID]), coqN(r.keys.rank(string(w.idents[o.Ident].PublicKey))), sortCoq(o.Sort), coqNList(deny), coqZ(int64(o.Clock)))
 		case "append":
 			hh := 0
 			if ob.Entry != nil {
